@@ -914,6 +914,86 @@ static void pairs_section(void) {
         }
         vh_class("bulk/addMany", "%d destinations x %d lists", NLIB + 2, NBULK);
     }
+    /* long scripted histories: a container filled in one step (a run) or by single adds, then DRAINED element by element
+     * in a fixed order - thousands of calls on one long-lived object whose intermediate states are each compared with the
+     * model (change report and cardinality at every step, all observers every 509 steps) - and, once empty, probed with
+     * removes / adds just outside and at its former ends */
+    if (vh_section_begin("drain")) {
+        static const uint32_t BASE[][2] = {{100, 5101}, {1, 4200}, {0, 4098}, {60000, 65535}, {7, 300}, {2000, 6097}};
+        static const char *ORD[4] = {"descending", "ascending", "alternating ends", "middle outwards"};
+        const char *api = "bitmap.history";
+        for (size_t b = 0; b < sizeof BASE / sizeof *BASE; b++) {
+            for (int fill = 0; fill < 2; fill++) {
+                for (int ord = 0; ord < 4; ord++) {
+                    if (!vh_case()) {
+                        continue;
+                    }
+                    uint32_t lo = BASE[b][0], hi = BASE[b][1], n = hi - lo;
+                    varintBitmap *vb = varintBitmapCreate();
+                    static bitset m;
+                    memset(&m, 0, sizeof m);
+                    if (fill == 0) {
+                        varintBitmapAddRange(vb, (uint16_t)lo, (uint16_t)hi);
+                    } else {
+                        for (uint32_t x = lo; x < hi; x++) {
+                            varintBitmapAdd(vb, (uint16_t)x);
+                        }
+                    }
+                    model_range(&m, lo, hi, 1);
+                    snprintf(cur_hist, sizeof cur_hist, "[%s [%u,%u); remove every member singly, %s]", fill ? "single adds of" : "addRange", lo, hi, ORD[ord]);
+                    check_observers(api, "A", vb, &m);
+                    uint32_t l = lo, h = hi, ml = lo + n / 2, mh = lo + n / 2;
+                    for (uint32_t k = 0; k < n; k++) {
+                        uint32_t x;
+                        if (ord == 0) {
+                            x = --h;
+                        } else if (ord == 1) {
+                            x = l++;
+                        } else if (ord == 2) {
+                            x = (k & 1) ? l++ : --h;
+                        } else {
+                            x = ((k & 1) && ml > lo) || mh >= hi ? --ml : mh++;
+                        }
+                        int want = bs_get(&m, x);
+                        int got = varintBitmapRemove(vb, (uint16_t)x);
+                        bs_clr(&m, x);
+                        uint32_t card = varintBitmapCardinality(vb);
+                        if (got != want || card != n - k - 1) {
+                            BFAIL("model_divergence", "%s: step %u Remove(%u) returned %d (model %d), cardinality %u (model %u)", cur_hist, k, x, got, want, card, n - k - 1);
+                            break;
+                        }
+                        if (k % 509 == 0) {
+                            check_observers(api, "A", vb, &m);
+                        }
+                        vh_count("calls", 2);
+                    }
+                    check_observers(api, "A", vb, &m);
+                    /* the drained object: removes of absent neighbours must change nothing, adds must work */
+                    uint32_t T[6] = {lo ? lo - 1 : 0, lo, hi - 1, hi < 65535 ? hi : 65535, lo + n / 2, lo ? lo - 1 : 0};
+                    for (int t = 0; t < 6; t++) {
+                        int want = bs_get(&m, T[t]);
+                        int got = varintBitmapRemove(vb, (uint16_t)T[t]);
+                        if (got != want) {
+                            BFAIL("wrong_change_report", "%s, then Remove(%u) on the drained set returned %d", cur_hist, T[t], got);
+                        }
+                        check_observers(api, "A", vb, &m);
+                    }
+                    for (int t = 0; t < 5; t++) {
+                        int want = !bs_get(&m, T[t]);
+                        int got = varintBitmapAdd(vb, (uint16_t)T[t]);
+                        bs_set(&m, T[t]);
+                        if (got != want) {
+                            BFAIL("wrong_change_report", "%s, then Add(%u) returned %d (model %d)", cur_hist, T[t], got, want);
+                        }
+                        check_observers(api, "A", vb, &m);
+                    }
+                    varintBitmapFree(vb);
+                    vh_count("cases", 1);
+                }
+            }
+        }
+        vh_class("drain", "6 base ranges x {range fill, single adds} x 4 removal orders");
+    }
     if (vh_section_begin("pairs-small")) {
         /* against every library set L: every subset of size 1..3 of a probe alphabet placed relative to L */
         for (int a = 0; a < NLIB; a++) {
